@@ -139,7 +139,7 @@ PROVED = {
  "C01": "for static trees of any size and depth (elements with static ids/classes/attributes, text, comments, doctype) the literal the emitter "
         "writes reads back, by the model of strconv.Unquote, as exactly the denoted HTML, and a template with a static body is exactly prologue + one "
         "WriteString + error check + epilogue; for templates of the fragment of Proofs/SegProofs.v (static markup, interpolation, `=` scripts, unescaped lines, "
-        "static/dynamic/conditional attributes, `-` Go lines, brace-less if/else-if/else chains, for, switch with case lines, @render with/without nested "
+        "static/dynamic/conditional attributes, `-` Go lines, brace-less if/else-if/else chains, for, switch with case lines, blocks with explicit braces, @render with/without nested "
         "content, @children, object references and @attributes through the runtime helpers, whitespace marks, comment blocks, the javascript/css/plain/escaped filters; any size and nesting) the generated body is proved to be a run of a grammar of generated code (`denotes`) standing for the "
         "segment list of the template (literal HTML that reads back exactly, escaped / raw expression values, `stmt { code of the nested block }`, "
         "Render/PushChildren calls); the whitespace pass is the identity on marker-free static HTML. A class attribute merged into the class list, "
